@@ -636,6 +636,15 @@ func (r *Runner) doEnv(bctx sdk.Context, ln *Line) {
 		msg = &cctptypes.MsgPauseBurningAndMinting{From: fixedAddr("cctp-pauser").String()}
 	case "cctpUnpause":
 		msg = &cctptypes.MsgUnpauseBurningAndMinting{From: fixedAddr("cctp-pauser").String()}
+	case "bigback":
+		// the recipient sends the big-denom coins out over IBC again: they return to the escrow
+		// (cumulative traffic can exceed the supply; only the ledger movement is reproduced)
+		bal := w.app.BankKeeper.GetBalance(bctx, w.acct["U"], "ubig")
+		if bal.IsZero() {
+			ln.Res = Res{Ack: "ok"}
+			return
+		}
+		msg = &banktypes.MsgSend{FromAddress: w.acct["U"].String(), ToAddress: w.acct["esc0"].String(), Amount: sdk.NewCoins(bal)}
 	default:
 		panic(machineryError{"unknown env op " + in.Op})
 	}
@@ -645,6 +654,10 @@ func (r *Runner) doEnv(bctx sdk.Context, ln *Line) {
 	res, _ := r.msgOn(bctx, msg)
 	r.instr = saved
 	ln.Res = res
+	if in.Op == "bigback" && res.Ack == "ok" {
+		// ICS-20's own escrow bookkeeping, as a real outgoing transfer would update it
+		w.app.TransferKeeper.SetTotalEscrowForDenom(bctx, w.app.BankKeeper.GetBalance(bctx, w.acct["esc0"], "ubig"))
+	}
 }
 
 func (r *Runner) doReimport(bctx sdk.Context, ln *Line) {
